@@ -89,24 +89,26 @@ func (b *payPerInterval) OnUpdate(node store.Node, peers []store.Node) (store.Ba
 		total.Add(total, credit)
 	}
 
-	// If this comparison is in the wrong place, it could make the pool
-	// insolvent. On the other hand, if we compare too early, then the client
-	// could get into a loop where it disconnects due to low balance, connects
-	// successfully, repeat.
-	if b.MinBalance != nil && b.MinBalance.Cmp(total) > 0 {
-		return store.Balance{}, LowBalanceError{
-			CurrentBalance: total,
-			MinBalance:     b.MinBalance,
-		}
-	}
-
 	if err := b.Store.AddNodeBalance(node.ID, new(big.Int).Neg(total)); err != nil {
 		return store.Balance{}, err
 	}
+
 	balance, err := b.Store.GetNodeBalance(node.ID)
 	if err != nil {
 		return balance, err
 	}
 
-	return b.Store.GetNodeBalance(node.ID)
+	// The minimum applies to the client's spendable balance after this
+	// update's charge. Checking it before the client is debited would hand out
+	// credit nobody pays for (making the pool insolvent).
+	if b.MinBalance != nil {
+		current := new(big.Int).Add(&balance.Credit, &balance.Deposit)
+		if b.MinBalance.Cmp(current) > 0 {
+			return store.Balance{}, LowBalanceError{
+				CurrentBalance: current,
+				MinBalance:     b.MinBalance,
+			}
+		}
+	}
+	return balance, nil
 }
